@@ -217,6 +217,13 @@ PROPS = {
             {"bin": "d18_nsec_order_ignores_types", "finding": "D18"},
             {"bin": "d19_nsec3_partial_ord_vs_ord", "finding": "D19"},
             {"bin": "d20_rrsig_partial_ord_vs_ord", "finding": "D20"},
+            {"bin": "d21_svcb_canonical_order", "finding": "D21"},
+            {"bin": "d22_ipseckey_canonical_order", "finding": "D22"},
+            {"bin": "d23_ipseckey_hash_no_gateway", "finding": "D23"},
+            {"bin": "d24_zonemd_partial_ord_vs_ord", "finding": "D24"},
+            {"bin": "d25_unknown_rdata_eq_ignores_type", "finding": "D25"},
+            {"bin": "d26_allrecorddata_eq_not_reflexive", "finding": "D26"},
+            {"bin": "d27_zonerecorddata_cross_variant_order", "finding": "D27", "expect": "fail"},
         ],
         "explanation": "Names (Verus unit nameorder, real text of the provided methods of ToName in base/name/traits.rs, for every "
                        "implementor, i.e. every representation -- flat, compressed ParsedName, chain): name_eq == label-wise equality "
@@ -237,7 +244,12 @@ PROPS = {
                        "== is field-wise with the signer compared as a name; canonical_cmp and cmp are the field order with the signer "
                        "name by its canonical wire form and the signature as octets; partial_cmp == Some(cmp). Whole records "
                        "(base/record.rs, real text): Record::canonical_cmp orders by class, then owner name (RFC 4034 6.1 order), "
-                       "then type, then the canonical RDATA order of the data type. "
+                       "then type, then the canonical RDATA order of the data type. SVCB/HTTPS (rdata/svcb, real text): "
+                       "SvcbRdata::canonical_cmp == octet-wise order of the canonical RDATA (priority, target name as it is, "
+                       "parameters). ZONEMD and record data of unknown type (unit nsec3order): Zonemd cmp/canonical_cmp are the "
+                       "field order with the serial as a number and partial_cmp == Some(cmp); UnknownRecordData == is (type, octets), "
+                       "cmp/partial_cmp order by type then octets and are Equal exactly on equal values, canonical_cmp is the "
+                       "octet order of the RDATA. "
                        "Laws proved over the reference definitions the code is tied to: the name order is antisymmetric, "
                        "transitive, and Equal exactly on names that are name_eq (so order, equality and representation cannot "
                        "disagree). Labels, records (Kani on the compiled generic code, whose comparison code is written with "
